@@ -1,0 +1,48 @@
+//go:build verif
+// +build verif
+
+package log
+
+import "path/filepath"
+
+// Verification hooks, compiled only with the "verif" build tag.
+// They let an external harness observe flush points and interpose
+// at the points between storage operations of the log package.
+
+// VerifPoint, if set, is called at named points between storage
+// operations. dir is the log directory.
+var VerifPoint func(dir, name string)
+
+// VerifDurable, if set, is called after a segment has been flushed:
+// entries prevIndex+1..prevIndex+n of the log in dir are durable.
+var VerifDurable func(dir string, prevIndex uint64, n int)
+
+func verifPoint(dir, name string) {
+	if VerifPoint != nil {
+		VerifPoint(dir, name)
+	}
+}
+
+func verifSegPoint(s *segment, name string) {
+	if VerifPoint != nil {
+		VerifPoint(filepath.Dir(s.file.Name()), name)
+	}
+}
+
+func verifDurable(s *segment) {
+	if VerifDurable != nil {
+		VerifDurable(filepath.Dir(s.file.Name()), s.prevIndex, s.n)
+	}
+}
+
+// VerifSegments returns (prevIndex, n) of each segment of l, first to last.
+func VerifSegments(l *Log) [][2]uint64 {
+	var segs [][2]uint64
+	for s := l.first; s != nil; s = s.next {
+		segs = append(segs, [2]uint64{s.prevIndex, uint64(s.n)})
+		if s == l.last {
+			break
+		}
+	}
+	return segs
+}
